@@ -25,6 +25,11 @@ struct Region {
         dsim::cell_add(DEQUE_ALLOCS, (long)(all - d));
         if (d != frames) dsim::fail("C20.allocated", "%s: %lu heap allocation(s) in the measured region, expected exactly %lu (the coroutine frames created there)", what, d, frames);
     }
+    // a program without any coroutine never makes a coroutine ready: there the ready queue has no business either, so every allocation counts
+    void expect_none_at_all() {
+        unsigned long all = dsim::thread_allocs() - all0;
+        if (all) dsim::fail("C20.allocated", "%s: %lu heap allocation(s) in a program that contains no coroutine at all", what, all);
+    }
 };
 
 // coroutine waiters: frame in a caller-provided slot (placement) or on the heap
@@ -47,13 +52,17 @@ void family_future() {
     int wk[6]; bool heap[6]; int ncoro = 0;
     for (int i = 0; i < nw; i++) { wk[i] = dsim::choose(5); heap[i] = dsim::flip(); if (wk[i] <= 1 && ++ncoro > 3) wk[i] = 2 + dsim::choose(3); }
     int rk = dsim::choose(3); bool threads = dsim::flip();
-    dsim::plan_note("future: waiters=%d", nw); for (int i = 0; i < nw; i++) dsim::plan_note(" %d%s", wk[i], heap[i] ? "h" : "p");
+    bool hold_sp = dsim::flip();             // the resolver keeps the returned suspend point and flushes it with clear() ("resume at a chosen place")
+    int ncoro_final = 0; for (int i = 0; i < nw; i++) if (wk[i] <= 1) ncoro_final++;
+    dsim::plan_note("future: hold_sp=%d waiters=%d", (int)hold_sp, nw); for (int i = 0; i < nw; i++) dsim::plan_note(" %d%s", wk[i], heap[i] ? "h" : "p");
     dsim::plan_note(" resolver=%d threads=%d", rk, (int)threads);
     alignas(16) static Slot slots[6]; CbAwt cbs[6];
-    auto resolve = [rk](cocls::promise<Payload> &p) {
+    auto resolve = [rk, hold_sp, ncoro_final](cocls::promise<Payload> &p) {
         Region r("resolving a promise");
-        if (rk == 0) p(Payload{7, 14, 21}); else if (rk == 1) p(cocls::drop); else { cocls::promise<Payload> q(std::move(p)); }
+        if (hold_sp && rk != 2) { auto sp = rk == 0 ? p(Payload{7, 14, 21}) : p(cocls::drop); cocls::suspend_point<void> all; all << std::move(sp); all.clear(); if (!all.empty()) dsim::fail("C20.payload", "clear() left the suspend point non-empty"); }
+        else if (rk == 0) p(Payload{7, 14, 21}); else if (rk == 1) p(cocls::drop); else { cocls::promise<Payload> q(std::move(p)); }
         r.expect(0);
+        if (ncoro_final == 0) r.expect_none_at_all();
         dsim::cell_set(RESOLVED, 1);
     };
     auto wait = [&](cocls::future<Payload> &f, int i) {
